@@ -553,6 +553,7 @@ func (x *Exec) findInlinable(s ast.Stmt, st *State) (*ast.CallExpr, *FuncInfo) {
 	var ffi *FuncInfo
 	// only the statement's own expressions, not nested blocks
 	var visit func(n ast.Node) bool
+	pureOnly := false
 	visit = func(n ast.Node) bool {
 		if found != nil {
 			return false
@@ -574,7 +575,7 @@ func (x *Exec) findInlinable(s ast.Stmt, st *State) (*ast.CallExpr, *FuncInfo) {
 			if fn := x.staticCallee(t); fn != nil && fn.Pkg() != nil && fn.Pkg().Path() == x.fn.pkgPath() {
 				key := funcKeyOf(fn)
 				if x.sp.Funcs[key] == nil {
-					if fi := x.prog.funcs[key]; fi != nil && fi.decl.Body != nil {
+					if fi := x.prog.funcs[key]; fi != nil && fi.decl.Body != nil && (!pureOnly || x.looksPure(fi)) {
 						found, ffi = t, fi
 					}
 				}
@@ -598,6 +599,23 @@ func (x *Exec) findInlinable(s ast.Stmt, st *State) (*ast.CallExpr, *FuncInfo) {
 		if t.Init == nil {
 			ast.Inspect(t.Cond, visit)
 		}
+	case *ast.SwitchStmt:
+		// calls of side-effect free helpers in the tag and the case expressions (evaluating them
+		// ahead of the switch does not change anything)
+		if t.Init == nil {
+			pureOnly = true
+			if t.Tag != nil {
+				ast.Inspect(t.Tag, visit)
+			}
+			for _, cc := range t.Body.List {
+				if c, ok := cc.(*ast.CaseClause); ok {
+					for _, e := range c.List {
+						ast.Inspect(e, visit)
+					}
+				}
+			}
+			pureOnly = false
+		}
 	case *ast.IncDecStmt:
 		ast.Inspect(t.X, visit)
 	case *ast.SendStmt:
@@ -606,6 +624,56 @@ func (x *Exec) findInlinable(s ast.Stmt, st *State) (*ast.CallExpr, *FuncInfo) {
 		ast.Inspect(t, visit)
 	}
 	return found, ffi
+}
+
+// looksPure: the function reads only - no channel operation, no assignment to anything but its
+// own locals, no call other than len/cap and conversions.
+func (x *Exec) looksPure(fi *FuncInfo) bool {
+	pure := true
+	info := fi.pkg.TypesInfo
+	local := func(e ast.Expr) bool {
+		id, ok := ast.Unparen(e).(*ast.Ident)
+		if !ok {
+			return false
+		}
+		o := info.Defs[id]
+		if o == nil {
+			o = info.Uses[id]
+		}
+		return o != nil && o.Parent() != nil && o.Parent() != fi.pkg.Types.Scope() && o.Pos() >= fi.decl.Pos() && o.Pos() <= fi.decl.End()
+	}
+	ast.Inspect(fi.decl.Body, func(n ast.Node) bool {
+		switch t := n.(type) {
+		case *ast.SendStmt, *ast.GoStmt, *ast.DeferStmt, *ast.SelectStmt, *ast.FuncLit:
+			pure = false
+		case *ast.UnaryExpr:
+			if t.Op == token.ARROW || t.Op == token.AND {
+				pure = false
+			}
+		case *ast.AssignStmt:
+			for _, l := range t.Lhs {
+				if !local(l) {
+					pure = false
+				}
+			}
+		case *ast.IncDecStmt:
+			if !local(t.X) {
+				pure = false
+			}
+		case *ast.CallExpr:
+			if tv, ok := info.Types[t.Fun]; ok && tv.IsType() {
+				return true
+			}
+			if id, ok := t.Fun.(*ast.Ident); ok {
+				if _, isB := info.Uses[id].(*types.Builtin); isB && (id.Name == "len" || id.Name == "cap" || id.Name == "min" || id.Name == "max") {
+					return true
+				}
+			}
+			pure = false
+		}
+		return true
+	})
+	return pure
 }
 
 func (x *Exec) inline(call *ast.CallExpr, fi *FuncInfo, st *State, k func(*State, []Val)) {
@@ -621,6 +689,12 @@ func (x *Exec) inline(call *ast.CallExpr, fi *FuncInfo, st *State, k func(*State
 				return true
 			}
 			kk := fmt.Sprintf("%T", n)
+			switch n.(type) {
+			case *ast.ForStmt, *ast.RangeStmt:
+				kk = "loop"
+			case *ast.AssignStmt, *ast.IncDecStmt:
+				kk = "assign"
+			}
 			x.ords[n] = 1000*(len(x.inlinedFuncs)+1) + cnt[kk]
 			cnt[kk]++
 			return true
@@ -721,6 +795,38 @@ func (x *Exec) loop(s ast.Stmt, st *State, cx *Ctx, k func(*State)) {
 					lspec = fs.Loops[ord%1000]
 				}
 			}
+			// a loop that was extracted into a helper: the function under verification has a loop
+			// contract that matches none of its own loops any more - it goes with the helper's loop
+			if lspec == nil && x.topSpec != nil {
+				if k, ok := x.adopted[s]; ok {
+					lspec = x.topSpec.Loops[k]
+				} else {
+					var ks []int
+					for k := range x.topSpec.Loops {
+						if k >= x.ownLoops {
+							ks = append(ks, k)
+						}
+					}
+					sort.Ints(ks)
+					for _, k := range ks {
+						taken := false
+						for _, k2 := range x.adopted {
+							if k2 == k {
+								taken = true
+							}
+						}
+						if !taken {
+							if x.adopted == nil {
+								x.adopted = map[ast.Stmt]int{}
+							}
+							x.adopted[s] = k
+							lspec = x.topSpec.Loops[k]
+							fmt.Printf("NOTE %s: the contract of loop %d goes with the loop at %s of a helper executed inline\n", x.fn.name(), k, x.line(s))
+							break
+						}
+					}
+				}
+			}
 		}
 	}
 	var body *ast.BlockStmt
@@ -815,6 +921,7 @@ func (x *Exec) loop(s ast.Stmt, st *State, cx *Ctx, k func(*State)) {
 		// an invariant that cannot be evaluated on this tree (it names a local variable that was
 		// removed) is neither assumed nor proved: it is an obligation that fails
 		invIdx := make([]int, len(invs))
+		droppedInv := false
 		{
 			var live []*Clause
 			var liveIdx []int
@@ -832,6 +939,7 @@ func (x *Exec) loop(s ast.Stmt, st *State, cx *Ctx, k func(*State)) {
 						Goal: "false", Expect: "unsat", Params: x.params, Broken: msg}
 					q.Trail = st.trail[:len(st.trail):len(st.trail)]
 					x.qs = append(x.qs, q)
+					droppedInv = true
 					continue
 				}
 				live = append(live, c)
@@ -939,6 +1047,9 @@ func (x *Exec) loop(s ast.Stmt, st *State, cx *Ctx, k func(*State)) {
 		}
 		if len(invs) == 0 && len(autos) == 0 {
 			h.weak = true
+		}
+		if droppedInv {
+			h.brokenInv = true
 		}
 		h.note(fmt.Sprintf("loop[%d]@%s:head", ord, x.line(s)))
 		outerPolls := h.polls
@@ -1656,11 +1767,12 @@ func (x *Exec) computeOrdinals() {
 		cnt[k]++
 		return true
 	})
+	x.ownLoops = cnt["loop"]
 }
 
 // verifyFunc generates the queries of one function.
 func verifyFunc(w *World, sp *Specs, prog *Program, fi *FuncInfo, spec *FuncSpec, prop string) *Exec {
-	x := &Exec{w: w, sp: sp, prog: prog, fn: fi, spec: spec, prop: prop, decls: map[string]string{}}
+	x := &Exec{w: w, sp: sp, prog: prog, fn: fi, spec: spec, topSpec: spec, prop: prop, decls: map[string]string{}}
 	x.computeOrdinals()
 	x.localOrd = map[types.Object]int{}
 	x.usedLocals = map[string]int{}
